@@ -1,7 +1,7 @@
 from __future__ import absolute_import, print_function, division
 from pony.py23compat import cmp, unicode, buffer, int_types
 
-import builtins, json, re, sys, types, datetime, logging, itertools, warnings, inspect, ast
+import builtins, dis, json, re, sys, types, datetime, logging, itertools, warnings, inspect, ast
 from operator import attrgetter, itemgetter
 from itertools import chain, starmap, repeat
 from time import time
@@ -5610,6 +5610,18 @@ def string2ast(s):
     # result = deepcopy(result)  # no need for now, but may be needed later
     return result
 
+global_names_cache = {}
+
+def global_names(code):
+    # names that the code object (and the code objects nested in it) looks up as globals
+    result = global_names_cache.get(code)
+    if result is None:
+        result = set(ins.argval for ins in dis.get_instructions(code) if ins.opname in ('LOAD_GLOBAL', 'LOAD_NAME'))
+        for const in code.co_consts:
+            if isinstance(const, types.CodeType): result |= global_names(const)
+        global_names_cache[code] = result
+    return result
+
 def get_globals_and_locals(args, kwargs, frame_depth, from_generator=False):
     args_len = len(args)
     assert args_len > 0
@@ -5640,7 +5652,12 @@ def get_globals_and_locals(args, kwargs, frame_depth, from_generator=False):
             locals.update(sys._getframe(frame_depth+1).f_locals)
         if type(func) is types.GeneratorType:
             globals = func.gi_frame.f_globals
+            # the caller's locals stay visible (raw_sql('$x') needs them) but must not shadow a global of the generator
+            for name in global_names(func.gi_frame.f_code): locals.pop(name, None)
             locals.update(func.gi_frame.f_locals)
+        elif type(func) is types.FunctionType:
+            globals = func.__globals__
+            for name in global_names(func.__code__): locals.pop(name, None)
         elif frame_depth is not None:
             globals = sys._getframe(frame_depth+1).f_globals
     if kwargs: throw(TypeError, 'Keyword arguments cannot be specified together with positional arguments')
